@@ -2,7 +2,7 @@
    k bytes) and the writer (byte budget; the crossing write is answered with a partial
    count and an error) are universally quantified oracles. *)
 From Coq Require Import List Ascii String.
-From GT Require Import Base.GoStr Tree.Tree Tree.Gen Api.Simple Api.Programmable Api.Faults Proofs.Faults.
+From GT Require Import Base.GoStr Tree.Tree Tree.Gen Api.Simple Api.Programmable Api.Faults Proofs.Faults Proofs.Extras.
 Import ListNotations.
 
 (* nil is returned only if the writer accepted every byte of the output (From-Markdown) *)
@@ -42,6 +42,21 @@ Theorem C14_reader_error_partial : forall c input n rows st,
   snd (output_md_r c input (Some n)) = Err EReader.
 Proof. exact reader_error_is_returned. Qed.
 Print Assumptions C14_reader_error_partial.
+
+(* a TRANSIENT writer failure: the writer rejects exactly its k-th non-empty Write and would
+   accept every other one.  nil is returned only if that call was never made, and then every
+   byte of the output has been written *)
+Theorem C14_transient : forall c input k acc,
+  output_faulty_kth c input k = (acc, Ok tt) ->
+  acc = chunk_bytes (fst (output_md c input)) /\ nonempty_writes (fst (output_md c input)) <= k.
+Proof. exact transient_failure_reported. Qed.
+Print Assumptions C14_transient.
+
+Theorem C14_transient_root : forall c t k acc,
+  output_root_faulty_kth c t k = (acc, Ok tt) ->
+  acc = chunk_bytes (fst (output_root c t)) /\ nonempty_writes (fst (output_root c t)) <= k.
+Proof. exact transient_failure_reported_root. Qed.
+Print Assumptions C14_transient_root.
 
 Definition s (x : string) : str := list_ascii_of_string x.
 Definition tc := {| c_bf := Tree.Grower.default_bfmt; c_enc := EncDefault; c_dry := false; c_exts := []; c_noiter := true |}.
